@@ -137,7 +137,7 @@ fn lies_for(p: &Program, other_warp: Option<(WarpId, NodeId)>) -> Vec<Lie> {
             }
             Mop::OpenPortalNode { node, .. } => out.push(Lie::DropAttWrite(na(node), "open-portal")),
             Mop::OpenPortalEdge { edge, .. } => out.push(Lie::DropAttWrite(ea(edge), "open-portal")),
-            Mop::Panic | Mop::ForeignSetNodeAtt { .. } => {}
+            Mop::Panic | Mop::ForeignSetNodeAtt { .. } | Mop::ClaimPort { .. } => {}
         }
     }
     if let Some((ow, on)) = other_warp {
